@@ -163,6 +163,14 @@ def run_scenarios(rep, tier, seed, tag, make_scenario, oracle, n_quick, n_thorou
                 for st in scn["steps"]:
                     if st["op"] in ("create", "verify", "verifydh", "verifypl", "diff", "flatten", "info") and vrng.random() < 0.5:
                         st["verbose"] = True
+            if i % 7 == 6 and "root_name" not in scn:
+                scn["link_parent"] = True      # the same tree reached through a symbolic link above it
+                for st in scn["steps"]:
+                    # root and -sf names are typed by the same route: a root relative to the working directory is resolved
+                    # through the PHYSICAL working directory while an absolute -sf name keeps the link (mixing the two is
+                    # outside every property's domain; what the tool does then is noted in DESIGN 10.4)
+                    if (st.get("sf") or st.get("op") == "infosf") and st.get("spell") in ("dot", "rel", "dotrel"):
+                        st.pop("spell")
             scenarios.append((f"gen{i}", scn))
         for label, scn in scenarios:
             impl_obs, root = world.run_impl(scn, scratch, snap=snap)
